@@ -865,7 +865,7 @@ func record(out string, episodes int) {
 		tc := &cs[rng.Intn(len(cs))]
 		// the interesting types more often
 		if rng.Intn(3) == 0 {
-			pick := []string{"OPT", "SVCB", "HTTPS", "APL", "VERIFPRIV", "Msg/small", "Msg/small/CopyTo", "AAAA", "IPSECKEY"}
+			pick := []string{"OPT", "SVCB", "HTTPS", "APL", "VERIFPRIV", "Msg/small", "Msg/small/CopyTo", "AAAA", "IPSECKEY", "Msg/small/opt-first", "Msg/small/opt-middle+tsig", "Msg/small/no-opt"}
 			want := pick[rng.Intn(len(pick))]
 			for i := range cs {
 				if cs[i].name == want {
